@@ -170,6 +170,18 @@ package leveldb
 // filter.go: filters are built and probed on user keys (the 8-byte suffix is stripped on both sides).
 
 
+// C16: every filter policy the tables are handed - the main one and each alternative one - is wrapped so that it is
+// fed and probed with user keys (the sequence suffix stripped): a policy left unwrapped would be probed with internal
+// keys and hide stored keys. (The clauses are anchored on the wrapping statements themselves: the spec language has no
+// way to speak of the dynamic type behind an interface value, so a wrapping that disappears is reported structurally.)
+//@ func (*session).setOptions
+//@   props C16
+//@   safety off
+//@   at before stmt no.AltFilters[i] = &iFilter{filter}
+//@     assert [C16:every-alternative-policy-is-wrapped-to-see-user-keys] 0 <= i && i < len(no.AltFilters)
+//@   at after stmt no.Filter = &iFilter{filter}
+//@     assert [C16:the-main-policy-is-wrapped-to-see-user-keys] no.Filter != nil
+
 //@ func (iFilter).Contains
 //@   props C16
 //@   mode bv
